@@ -218,8 +218,9 @@ def acquire_post():
 
     def timed_within_two_stages_plus_poll(E, a, old, res):
         bl, to = eff(a, a.self.fields['timeout'].t)
+        slack = E.w.get('slack', z3.RealVal(0))
         return z3.Implies(z3.And(bl, to >= 0),
-                          E.w['now'] - old.w['now'] <= 2 * to + stubs._real(a.poll_interval))
+                          E.w['now'] - old.w['now'] <= 2 * to + stubs._real(a.poll_interval) + slack)
 
     def exc_leaves_no_residue(E, a, old, exc):
         v0, v1 = old_view(E, a.self, old), view(E, a.self)
@@ -413,6 +414,7 @@ def release_levels_loop(E, st, fr, kind, src):
 def base_engine(E, inline_all=True):
     stubs.install_all(E)
     E.rare_oserrors = True
+    E.timer_slack = True
     # preconditions of the kernel stubs (flock / close on an OPEN descriptor of ours) decide C02 as well: a
     # descriptor number used after close() may by then belong to somebody else's lock
     E.stub_props = frozenset({'C12', 'C02'})
